@@ -230,14 +230,15 @@ def c14_set(api: int, tr: int, q: int, base: int, stride: int, t1: int, t2a: int
   return _check_set(cfg, before, qt, v)
 
 
-OPS = ['add_tag', 'remove_tag', 'set_tags', 'clear_tags', 'assign TaggedValue', 'assign plain', 'del']
+OPS = ['add_tag', 'remove_tag', 'set_tags', 'clear_tags', 'assign TaggedValue', 'assign plain', 'del',
+       'assign one TaggedValue object to two sites']
 
 
 def c14_ops(o1: int, s1: int, g1: int, o2: int, s2: int, g2: int, o3: int, s3: int, g3: int, q: int, v: int) -> bool:
   """
   Three tag operations (add / remove / set / clear / assigning a TaggedValue / plain assignment / deletion) on the
   sites of one node against a dict-of-sets model; get_tags, list_tags and set_tagged agree with the model afterwards.
-  require: 0 <= o1 <= 6 and 0 <= o2 <= 6 and 0 <= o3 <= 6 and 0 <= s1 <= 3 and 0 <= s2 <= 3 and 0 <= s3 <= 3
+  require: 0 <= o1 <= 7 and 0 <= o2 <= 7 and 0 <= o3 <= 7 and 0 <= s1 <= 3 and 0 <= s2 <= 3 and 0 <= s3 <= 3
   require: 0 <= g1 <= 5 and 0 <= g2 <= 5 and 0 <= g3 <= 5 and 0 <= q <= 3
   """
   q = _concs(q, 0, 3)
@@ -248,7 +249,7 @@ def c14_ops(o1: int, s1: int, g1: int, o2: int, s2: int, g2: int, o3: int, s3: i
   inner_model = {'p': {T1}}
   vals = {0: True, 3: True, 'c': False, 'k': True}
   for o, s, g in ((o1, s1, g1), (o2, s2, g2), (o3, s3, g3)):
-    o, s, g = _concs(o, 0, 6), _concs(s, 0, 3), _concs(g, 0, 5)
+    o, s, g = _concs(o, 0, 7), _concs(s, 0, 3), _concs(g, 0, 5)
     key = keys[s]
     ts = TAGSETS[g]
     try:
@@ -285,6 +286,16 @@ def c14_ops(o1: int, s1: int, g1: int, o2: int, s2: int, g2: int, o3: int, s3: i
           stored = cfg[key] if isinstance(key, int) else getattr(cfg, key)
           if stored != v - 9:
             return False
+      elif o == 7:
+        if ts:
+          tv = fdl.TaggedValue(tags=ts, default=v - 8)
+          for kk in (key, keys[(s + 1) % 4]):      # the same TaggedValue object lands on two arguments
+            if isinstance(kk, int):
+              cfg[kk] = tv
+            else:
+              setattr(cfg, kk, tv)
+            model[kk] |= set(ts)
+            vals[kk] = True
       elif o == 5:
         if isinstance(key, int):
           cfg[key] = v - 5
@@ -445,8 +456,8 @@ def obligations(tier, seed):
             cubes.append(Cube(f'a{api}_t{tr}_s{stride}_w{w}', [], dict(api=api, tr=tr, stride=stride, w=w, **({'lv': 3} if tr == 5 else {})),
                               est=4 * 6 * 12))
   ocubes = []
-  for o1 in range(7):
-    for o2 in range(7):
+  for o1 in range(8):
+    for o2 in range(8):
       for s1 in range(4):
         for s2 in range(4):
           if tier == 'quick' and (s1 != (o1 + o2) % 4 or s2 != (s1 + o2 % 2) % 4):
